@@ -241,15 +241,16 @@ def registering_visitors(prog):
     for f in prog.fns:
         if f.body is None:
             continue
-        t = f.rec.get("impl_of_trait") or ""
-        if t.split("<")[0] in ("swc_ecma_visit::Visit", "swc_ecma_visit::VisitMut"):
-            by_ty.setdefault(f.rec.get("self_ty", "").split("<")[0], []).append(f)
-    for ty, fs in by_ty.items():
+        t = (f.rec.get("impl_of_trait") or "").split("<")[0]
+        if t in ("swc_ecma_visit::Visit", "swc_ecma_visit::VisitMut"):
+            # per (type, trait): the read-only walk of a type that also rewrites is a visitor of its own
+            by_ty.setdefault((f.rec.get("self_ty", "").split("<")[0], t.endswith("::Visit")), []).append(f)
+    for (ty, readonly), fs in by_ty.items():
         if len(fs) == 1 and fs[0].name in ("visit_ident", "visit_mut_ident"):
             f = fs[0]
             calls = [n for n in f.nodes() if hir.is_call(n) and hir.callee_name(n) == "register_variable" and not f.conds_at(n)]
             if len(calls) == 1 and hir.local_of(hir.call_args(calls[0])[1]) and f.bindings()[hir.local_of(hir.call_args(calls[0])[1])[0]]["origin"][:2] == ("param", 1):
-                out.add(ty)
+                out.add(ty + "/Visit" if readonly else ty)
     return out
 
 
